@@ -53,7 +53,7 @@ func drawC16(rt *rapid.T) C16Spec {
 	s := C16Spec{LibSeed: rapid.Uint64().Draw(rt, "libseed")}
 	n := rapid.IntRange(1, 3).Draw(rt, "ngens")
 	for i := 0; i < n; i++ {
-		s.Bits = append(s.Bits, rapid.SampledFrom([]int{128, 128, 130, 136, 146, 160, 192, 210, 256, 258}).Draw(rt, "bits"))
+		s.Bits = append(s.Bits, rapid.SampledFrom([]int{128, 128, 129, 130, 131, 136, 146, 160, 192, 210, 255, 256, 258}).Draw(rt, "bits"))
 		s.Attrs = append(s.Attrs, rapid.IntRange(1, 20).Draw(rt, "attrs"))
 	}
 	if rapid.IntRange(0, 3).Draw(rt, "find") == 0 {
@@ -74,7 +74,6 @@ func drawC16(rt *rapid.T) C16Spec {
 	if rapid.IntRange(0, 4).Draw(rt, "randfail") == 0 {
 		s.RandFailAt = rapid.IntRange(1, 4000).Draw(rt, "randfailat")
 		s.RandFailN = rapid.SampledFrom([]int{0, 0, 1, 2, 5}).Draw(rt, "randfailn")
-		s.FindPrime = 0
 	}
 	if rapid.IntRange(0, 5).Draw(rt, "freerun") == 0 {
 		s.FreeRun = true
@@ -212,7 +211,18 @@ func execC16(r *kernel.Run, s C16Spec) {
 			go func() {
 				sc.Spawned("caller-findSafePrime")
 				defer sc.Exited("caller")
-				outs[len(s.Bits)] = c16Out{fp: keyproof.VerifFindSafePrime(s.FindPrime), done: true}
+				var fp *big.Int
+				var perr error
+				func() {
+					// findSafePrime has no error return: it panics with the error of the entropy source
+					defer func() {
+						if e := recover(); e != nil {
+							perr = fmt.Errorf("%v", e)
+						}
+					}()
+					fp = keyproof.VerifFindSafePrime(s.FindPrime)
+				}()
+				outs[len(s.Bits)] = c16Out{fp: fp, err: perr, done: true}
 			}()
 		}
 		blocked, exhausted = sc.Drive(nil)
@@ -254,6 +264,12 @@ func execC16(r *kernel.Run, s C16Spec) {
 				}
 				continue
 			}
+			if s.Bits[i]%2 == 1 {
+				// no two primes of equal length multiply to an odd number of bits: refusing is a correct
+				// answer (a key of exactly that length would be one too; never returning is not)
+				r.Probe("odd-length-refused")
+				continue
+			}
 			r.Violate("C16:generation-failed", nil, "GenerateKeyPair %d: %v", i, o.err)
 			continue
 		}
@@ -263,8 +279,13 @@ func execC16(r *kernel.Run, s C16Spec) {
 	}
 	if s.FindPrime > 0 {
 		o := outs[len(s.Bits)]
-		if !o.done || o.fp == nil || !safeprime.ProbablySafePrime(o.fp, 40) || o.fp.BitLen() != s.FindPrime {
-			r.Violate("C16:findSafePrime-wrong", nil, "findSafePrime(%d) returned %v", s.FindPrime, o.fp)
+		switch {
+		case !o.done:
+			r.Violate("C16:generation-did-not-return", map[string]any{"blocked": fmt.Sprint(blocked), "which": "findSafePrime"}, "findSafePrime(%d) never returned; blocked: %v", s.FindPrime, blocked)
+		case o.err != nil && sc.Failed > 0 && strings.Contains(o.err.Error(), kernel.ErrEntropy.Error()):
+			r.Probe("generation-failed-on-entropy-error")
+		case o.err != nil || o.fp == nil || !safeprime.ProbablySafePrime(o.fp, 40) || o.fp.BitLen() != s.FindPrime:
+			r.Violate("C16:findSafePrime-wrong", nil, "findSafePrime(%d) returned %v (%v)", s.FindPrime, o.fp, o.err)
 		}
 	}
 	if len(blocked) > 0 {
